@@ -1,8 +1,10 @@
 """C06 -- every accepted program yields loadable Lua."""
 import collections
+import os
 
 import corner_gen
 import lua_run
+import lua_scan
 import prog_gen
 import resolved_io
 import rustdebug
@@ -117,6 +119,45 @@ def classify(reason):
     return None
 
 
+_allowed = {}
+
+
+def _base_allowed():
+    """names of the runtime preamble and of the bundled standard library sources"""
+    if "base" not in _allowed:
+        pre = open(os.path.join(vlib.REPO, "sylt-compiler", "src", "preamble.lua"), encoding="utf-8").read()
+        names = lua_scan.names_of_text(pre)
+        std = set()
+        d = os.path.join(vlib.REPO, "std")
+        for f in sorted(os.listdir(d)):
+            if f.endswith(".sy") or f.endswith(".lua"):
+                std |= lua_scan.names_of_text(open(os.path.join(d, f), encoding="utf-8").read())
+        _allowed["base"] = names
+        _allowed["std"] = std
+    return _allowed["base"], _allowed["std"]
+
+
+def undefined_reason(text, case):
+    """a chunk that loads may still mention a name nothing defines (it would read nil): every name of the chunk's body is a
+    Lua keyword / standard global, compiler-made (V<n>, L<n>), a name of the preamble, or an identifier of the sources"""
+    base, std = _base_allowed()
+    pre, body = lua_run.split_preamble(text)
+    cls, src, line = case
+    allowed = set(base)
+    fields = line.split("\t")
+    if fields[0].startswith("std") or cls == "test":
+        allowed |= std
+    for f in fields[2:]:
+        if "=" in f:
+            try:
+                allowed |= lua_scan.names_of_text(vlib.unhex(f.split("=", 1)[1]).decode("utf-8", "replace"))
+            except Exception:
+                pass
+    allowed |= lua_scan.names_of_text(src if cls != "test" else "")
+    bad = lua_scan.undefined_names(body, allowed)
+    return ("the chunk mentions a name that nothing defines: " + ", ".join(bad[:5])) if bad else None
+
+
 def tie(ctx):
     cases = gen_cases(ctx)
     c10._m.update(_m)
@@ -138,6 +179,7 @@ def tie(ctx):
                              "model": (b[k] if k < len(b) else "<eof>") if mtext is not None else m[:100]})
         texts.append((i, vlib.unhex(real[i][3:]).decode("utf-8", "replace")))
     reasons = lua_run.lua_wf([t for _, t in texts], dialect="5.3")
+    reasons = [why or undefined_reason(t, cases[i]) for (i, t), why in zip(texts, reasons)]
     jit = lua_run.lua_wf([t for _, t in texts], dialect="jit") if ctx.tier == "thorough" else [None] * len(texts)
     bad, known = [], collections.Counter()
     for (i, t), why in zip(texts, reasons):
@@ -179,7 +221,7 @@ def search(ctx):
         line = "nostd\t/main.sy\t/main.sy=%s" % vlib.hexs(src)
     real = vlib.harness("compile", [line], timeout_s=60)[0]
     text = vlib.unhex(real[3:]).decode("utf-8", "replace") if real.startswith("OK ") else ""
-    why2 = lua_run.lua_wf([text])[0] if text else None
+    why2 = (lua_run.lua_wf([text])[0] or undefined_reason(text, (cls, src if cls != "test" else "", line))) if text else None
     pre, body = lua_run.split_preamble(text) if text else ("", "")
     return {"program": src if cls != "test" else "file " + src, "class": cls, "what": "the compiler accepts the program but the emitted chunk "
             "does not load: " + str(why2 or why), "lua_body": body[:3000], "case_line": line if cls != "test" else None,
@@ -190,7 +232,9 @@ def not_loadable(srcs):
     lines = ["nostd\t/main.sy\t/main.sy=%s" % vlib.hexs(s) for s in srcs]
     real = vlib.harness("compile", lines, timeout_s=60)
     idx = [i for i, r in enumerate(real) if r.startswith("OK ")]
-    res = lua_run.lua_wf([vlib.unhex(real[i][3:]).decode("utf-8", "replace") for i in idx])
+    texts = [vlib.unhex(real[i][3:]).decode("utf-8", "replace") for i in idx]
+    res = lua_run.lua_wf(texts)
+    res = [w or undefined_reason(t, ("gen", srcs[i], lines[i])) for i, t, w in zip(idx, texts, res)]
     out = [False] * len(srcs)
     for i, w in zip(idx, res):
         out[i] = w is not None and classify(w) is None
